@@ -1,5 +1,6 @@
 import Khttp.Driver.Parse
 import Khttp.Model.ReadLoop
+import Khttp.Model.Conn
 namespace Khttp.Driver
 open Khttp
 
@@ -11,14 +12,23 @@ def cliLine (arg : String) : String :=
   let ws := arg.splitOn " "
   let segs := parseSegs ((kv ws "segs").getD "-")
   let close := (kv ws "close").getD "1" == "1"
-  match (readResponse ⟨segs, close⟩).1 with
-  | .ok ok =>
+  match readResponse ⟨segs, close⟩ with
+  | (.ok ok, s') =>
     let r := ok.res
-    s!"OK c={r.code} r={hex r.reason} {headersStr r.headers}"
-  | .error .headTooLarge => "ERR headTooLarge"
-  | .error .parsing => "ERR parsing"
-  | .error .unexpectedEof => "ERR unexpectedEof"
-  | .error .hang => "ERR hang"
+    -- the body through `BodyReader::from_response` + `vec()` (only when the peer closes: otherwise an incomplete body makes
+    -- the real client wait for its read time-out, which the model does not have)
+    let body :=
+      if close then
+        let rd := Body.BodyReader.fromResponse (ok.buf.drop r.off) s'.toSrc r.headers.chunked r.headers.cl
+        match Body.runRead rd [] with
+        | (chunks, .eof) => s!" body={hex chunks.flatten}"
+        | _ => " bodyerr"
+      else ""
+    s!"OK c={r.code} r={hex r.reason} {headersStr r.headers}{body}"
+  | (.error .headTooLarge, _) => "ERR headTooLarge"
+  | (.error .parsing, _) => "ERR parsing"
+  | (.error .unexpectedEof, _) => "ERR unexpectedEof"
+  | (.error .hang, _) => "ERR hang"
 
 /-- `RDREQ max=<n> segs=<hex>,… close=<0|1>`: the server's `read_request` loop -/
 def rdreqLine (arg : String) : String :=
